@@ -15,6 +15,10 @@ type xpathImpl struct {
 // resolvePath walks through container and list segments itself; it also reports the
 // last segment it resolved so that XFind continues after it
 func (xp xpathImpl) resolvePath(seg *xpath.Path, s *Selection) (*Selection, *xpath.Path, error) {
+	if seg == nil {
+		// path ended on a container or list
+		return s, &xpath.Path{}, nil
+	}
 	m := meta.Find(s.Meta().(meta.HasDefinitions), seg.Ident)
 	if m == nil {
 		return nil, nil, fmt.Errorf("'%s' not found in xpath", seg.Ident)
